@@ -255,7 +255,8 @@ async def factories_that_use_the_context():
 @scenario
 async def component_tree():
     import functools
-    from asphalt.core import Component, Context, add_resource, add_resource_factory, current_context, get_resource, get_resource_nowait, get_resources, start_component
+    from asphalt.core import (Component, Context, add_resource, add_resource_factory, current_context, get_resource, get_resource_nowait, get_resources, start_component,
+                              start_service_task)
 
     class Leaf(Component):
         def __init__(self, tag="leaf"):
@@ -289,6 +290,12 @@ async def component_tree():
         async def start(self):
             add_resource(B(), "shared")
             await start_component(Plugin)                        # a nested tree started from start() of a component deployed as kind/name
+
+            async def flusher():
+                await anyio.sleep(0.01)
+            await start_service_task(flusher, "flusher", teardown_action=None)       # to be awaited, not cancelled, at teardown
+            await start_service_task(flusher, "stoppable", teardown_action=lambda: None)
+            await start_service_task(flusher, "default action")
             await _quiet(get_resource, A, "first", optional=True)
             get_resource_nowait(B, "prepared")
 
